@@ -262,7 +262,7 @@ pub fn run(tier: &str, seed: u64) -> Report {
     }
   }
   workspace_part(&mut report, &mut batch, &mut rng, if tier == "thorough" { 1500 } else { 150 });
-  multi_package_part(&mut report, &mut rng, if tier == "thorough" { 1500 } else { 150 });
+  multi_package_part(&mut report, &mut batch, &mut rng, if tier == "thorough" { 1500 } else { 150 });
   batch.finish(&mut report, "C12");
   report
 }
@@ -348,7 +348,81 @@ fn workspace_part(report: &mut Report, batch: &mut Batch, rng: &mut Rng, n: usiz
 
 /// several packages sharing one cache: two top-level packages refer to a third one that only they
 /// reach; an edit removes the references of one of them
-fn multi_package_part(report: &mut Report, rng: &mut Rng, n: usize) {
+/// which package of the world a URL belongs to
+fn package_of(w: &FcWorld, url: &str) -> Option<usize> {
+  w.pkgs.iter().position(|p| url.starts_with(&pkg_prefix(p)))
+}
+
+/// packages that have fast check data (a module or diagnostics) in a run
+fn packages_with_output(w: &FcWorld, r: &FcRun) -> BTreeSet<usize> {
+  r.slots.iter().filter(|(_, s)| !matches!(s, FcSlot::None)).filter_map(|(u, _)| package_of(w, u)).collect()
+}
+
+/// the queue of packages (DG/FcDeps.lean) replayed on what the implementation recorded: the
+/// dependencies stored in the cache entries, the packages the emitted modules refer to
+fn package_queue_part(
+  report: &mut Report,
+  batch: &mut Batch,
+  w: &FcWorld,
+  top: &[usize],
+  cache: &MemCache,
+  uncached: &FcRun,
+  runs: &[(&str, Vec<usize>, &FcRun)],
+  replay: &serde_json::Value,
+) {
+  let n = w.pkgs.len();
+  let mut recorded: Vec<BTreeSet<usize>> = vec![BTreeSet::new(); n];
+  let mut has_entry = vec![false; n];
+  for item in cache.inner.borrow().values() {
+    let Some(a) = item.modules.iter().find_map(|(u, _)| package_of(w, u.as_str())) else { continue };
+    has_entry[a] = true;
+    for d in &item.dependencies {
+      if let Some(b) = w.pkgs.iter().position(|p| p.name == d.name.as_str() && p.version == d.version.to_string()) {
+        recorded[a].insert(b);
+      }
+    }
+  }
+  let mut referenced: Vec<BTreeSet<usize>> = vec![BTreeSet::new(); n];
+  for (u, s) in &uncached.slots {
+    if let (Some(a), FcSlot::Module { deps, .. }) = (package_of(w, u), s) {
+      for d in deps {
+        if let Some(b) = d.split("=>").nth(1).and_then(|t| package_of(w, t)) {
+          if b != a {
+            referenced[a].insert(b);
+          }
+        }
+      }
+    }
+  }
+  for a in 0..n {
+    if !has_entry[a] {
+      continue;
+    }
+    for b in &referenced[a] {
+      if !recorded[a].contains(b) {
+        report.fail(
+          "oracle",
+          "package-referred-to-by-emitted-module-not-recorded-as-dependency",
+          format!("the emitted modules of {} refer to modules of {}; the cache entry of {} lists the dependencies {:?}", w.pkgs[a].name, w.pkgs[*b].name, w.pkgs[a].name, recorded[a].iter().map(|i| w.pkgs[*i].name.clone()).collect::<Vec<_>>()),
+          replay.clone(),
+        );
+      }
+    }
+  }
+  let pkgs: Vec<String> = (0..n)
+    .map(|a| format!("((recorded {}) (touched {}))", recorded[a].iter().map(|x| x.to_string()).collect::<Vec<_>>().join(" "), referenced[a].iter().map(|x| x.to_string()).collect::<Vec<_>>().join(" ")))
+    .collect();
+  for (label, stale, run) in runs {
+    let req = format!("(fc-deps (top {}) (pkgs {}) (stale {}))", top.iter().map(|x| x.to_string()).collect::<Vec<_>>().join(" "), pkgs.join(" "), stale.iter().map(|x| x.to_string()).collect::<Vec<_>>().join(" "));
+    let got = packages_with_output(w, run);
+    batch.descs.push(json!({"run": label, "world": replay}));
+    // the model's answer carries the order of analysis too; only the set of packages is observable here
+    batch.push(req.replacen("(fc-deps ", "(fc-deps-outputs ", 1), got.iter().map(|x| x.to_string()).collect::<Vec<_>>().join(" "), false);
+    report.evaluations += 1;
+  }
+}
+
+fn multi_package_part(report: &mut Report, batch: &mut Batch, rng: &mut Rng, n: usize) {
   for i in 0..n {
     let mut pr = rng.fork();
     let mut mw = crate::c09::gen_multi(&mut pr, i, i % 2 == 0);
@@ -373,6 +447,10 @@ fn multi_package_part(report: &mut Report, rng: &mut Rng, n: usize) {
     }
     let r2 = run_fast_check(&w0, Some(&cache), false);
     statement(report, &w0, &r0, &r2, true, "several packages, warm run", &replay);
+    {
+      let all: Vec<usize> = (0..w0.pkgs.len()).collect();
+      package_queue_part(report, batch, &w0, &mw.top_level, &cache, &r0, &[("no cache", all.clone(), &r0), ("cold", all, &r1), ("warm", vec![], &r2)], &replay);
+    }
     // edits that keep the references: one package's sources change without its declarations changing
     let mut cur = mw;
     for a in 0..cur.pkgs.len() {
@@ -388,6 +466,7 @@ fn multi_package_part(report: &mut Report, rng: &mut Rng, n: usize) {
       }
       let r3 = run_fast_check(&w1, Some(&cache), false);
       statement(report, &w1, &r3n, &r3, false, &format!("several packages, cached run after the sources of package {} changed", next.pkgs[a].name), &replay1);
+      package_queue_part(report, batch, &w1, &next.top_level, &cache, &r3n, &[("one package stale", vec![a], &r3)], &replay1);
       let r4 = run_fast_check(&w1, Some(&cache), false);
       statement(report, &w1, &r3n, &r4, true, "several packages, second cached run after the source change", &replay1);
       report.count("multi-package-history:source-change-keeping-references");
